@@ -48,6 +48,8 @@ REQUIRED_LABELS = [
     "fresh:pathform_differs",
     "fresh:outdir_default",
     "fresh:outdir_rel",
+    "fresh:outdir_holds_stale_outputs",
+    "hist:shared_outdir",
     "fresh:quiet_differs",
     "fresh:multi_file",
     "fresh:optimize",
@@ -166,6 +168,7 @@ def shapes_(draw: Any) -> Shape:
         pathform=draw(st.sampled_from(["abs", "rel"])),
         outdir=draw(st.sampled_from(["abs", "rel", "default", "default"])),
         quiet=draw(st.booleans()),
+        stale=draw(st.sampled_from(["", "", "long", "short"])),
     )
 
 
@@ -224,6 +227,8 @@ def run_fresh_case(c: FreshCase, stats: Stats) -> None:
             stats.count("fresh:outdir_rel")
         if sh.quiet != CANONICAL.quiet:
             stats.count("fresh:quiet_differs")
+        if sh.stale:
+            stats.count("fresh:outdir_holds_stale_outputs")
         compare(
             (base.code, base.files),
             (run.code, run.files),
@@ -261,6 +266,7 @@ class HistCase:
     trad: bool
     same_path: Dict[int, bool]  # group -> twins are written to the same path
     ops: List[Op]
+    shared_out: bool = False  # every operation writes into ONE output directory (files of earlier operations are overwritten)
 
 
 @st.composite
@@ -292,7 +298,7 @@ def hist_cases(draw: Any) -> HistCase:
             ops.append(Op(kind, i, Opts("c", trad and draw(st.booleans()))))
         else:
             ops.append(Op(kind, i, None, False, draw(st.booleans())))
-    return HistCase(pool, trad, same_path, ops)
+    return HistCase(pool, trad, same_path, ops, draw(st.booleans()))
 
 
 def describe_hist(c: HistCase) -> Any:
@@ -394,12 +400,22 @@ def _run_hist(c: HistCase, stats: Stats, root: str) -> None:
         o = op.opts
         assert o is not None
         want = expect(i, o)
-        out = os.path.join(root, f"out{n}")
-        os.makedirs(out)
+        out = os.path.join(root, "out_shared" if c.shared_out else f"out{n}")
+        os.makedirs(out, exist_ok=True)
+        before = detutil.outputs(out) if c.shared_out else {}
+        if c.shared_out:
+            stats.count("hist:shared_outdir")
+
+        def written() -> Dict[str, str]:
+            # in a shared directory files of OTHER names written by earlier operations are still there: judged are the
+            # files this compilation owes (whatever an earlier operation left under those names) and any new name
+            now = detutil.outputs(out)
+            return {k: v for k, v in now.items() if k in want[1] or k not in before}
+
         if op.kind == "main":
             path = place(i)
             r = bpapi.main_inprocess(path, lang=o.lang, outdir=out, disable_linter=op.quiet, enable_optimize=o.optimize, filter_messages=list(o.filt) if o.filt else None, endian=o.endian)
-            got = (r.code, detutil.outputs(out))
+            got = (r.code, written())
             info = {"stderr": r.stderr[-800:], "exc": repr(r.exc)}
         else:
             key = (i, o.optimize)
@@ -411,10 +427,10 @@ def _run_hist(c: HistCase, stats: Stats, root: str) -> None:
                 else:
                     stats.count("hist:op:render_reused_proto")
                 bpapi.render(proto, o.lang, out, optimize=o.optimize, filter_messages=list(o.filt) if o.filt else None, endian=o.endian)
-                got = (0, detutil.outputs(out))
+                got = (0, written())
                 info = {}
             except Exception as e:  # the command line would exit non-zero (diagnostic or traceback)
-                got = (1, detutil.outputs(out))
+                got = (1, written())
                 info = {"exc": repr(e)}
         if o.optimize:
             stats.count("hist:optimize")
